@@ -24,6 +24,7 @@ class Truth:
         self.base = {}          # snapshot name -> {recorded path: bytes}
         self.base_loc = {}      # snapshot name -> location
         self.locmap = {}        # chunk location -> digest (every chunk any command here can legitimately write)
+        self.ref = None
 
 
 def write_tree(root, files):
@@ -126,6 +127,7 @@ class Check(CheckBase):
         ]
         _, key, _ = await rep.init(backend, case['settings'], concurrent=2)
         truth.settings, truth.key = case['settings'], key
+        truth.config = await rep.fetch(backend, 'config')
         for i, files in enumerate(trees):
             src = os.path.join(scratch, f'base{i}')
             recorded = write_tree(src, files)
@@ -139,8 +141,12 @@ class Check(CheckBase):
 
     @staticmethod
     def _learn(truth, repo, digests):
+        # locations by the documented scheme (independent reader), not by asking the code under test
+        from .. import refimpl
+        if getattr(truth, 'ref', None) is None:
+            truth.ref = refimpl.Ref(truth.config, truth.key, truth.password)
         for d in digests:
-            truth.locmap[repo._chunk_digest_to_location(d)] = bytes(d)
+            truth.locmap[truth.ref.chunk_loc(bytes(d))] = bytes(d)
 
     def _pending_tree(self, case, r, scratch):
         mx = case['settings']['chunking']['max_length']
@@ -161,7 +167,7 @@ class Check(CheckBase):
 
         backend = make_backend()
         repo = await rep.unlocked(backend, truth.key, concurrent=2)
-        listed = [n async for n in repo._aiter(backend.list_files, '')]
+        listed = await rep.list_names(backend)
         if len(set(listed)) != len(listed):
             bad('listing returns a name twice', names=[n for n in listed if listed.count(n) > 1][:3])
         raw = raw_objects()
@@ -225,8 +231,31 @@ class Check(CheckBase):
                 shutil.rmtree(target, ignore_errors=True)
         if out:
             return out
-        # the repository stays usable: snapshot of the same data (dedups against whatever is there), restore, clean
+        # the repository stays usable: snapshot of the same data (dedups against whatever is there), restore, clean -
+        # in half of the states clean comes FIRST, straight after the interruption (what a user would do), and the
+        # visible snapshots must survive it
+        import zlib
+        clean_first = zlib.crc32(label.encode()) % 2 == 0
+
+        async def do_clean(stage):
+            r5 = await rep.unlocked(make_backend(), truth.key, concurrent=2)
+            with rep.capture():
+                await r5.clean()
+            counters['followup_cleans'] = counters.get('followup_cleans', 0) + 1
+            raw = raw_objects()
+            listed_all = await rep.list_names(make_backend())
+            listed = [n for n in listed_all if n.startswith('data/')]
+            refd, _ = refimpl.referenced_locations(ref, {n: raw[n] for n in listed_all if n in raw})
+            have = set(listed)
+            if have != refd:
+                bad(f'after clean ({stage}) the chunk objects differ from the referenced set',
+                    orphans=sorted(have - refd)[:3], missing=sorted(refd - have)[:3])
         try:
+            if clean_first:
+                counters['followup_clean_first'] = counters.get('followup_clean_first', 0) + 1
+                await do_clean('straight after the interruption')
+                if out:
+                    return out
             r3 = await rep.unlocked(make_backend(), truth.key, concurrent=2)
             src = pending_src
             with rep.capture():
@@ -246,18 +275,7 @@ class Check(CheckBase):
                         paths=sorted(p for p in set(got) | set(expect) if got.get(p) != expect.get(p))[:3])
             finally:
                 shutil.rmtree(target, ignore_errors=True)
-            r5 = await rep.unlocked(make_backend(), truth.key, concurrent=2)
-            with rep.capture():
-                await r5.clean()
-            counters['followup_cleans'] = counters.get('followup_cleans', 0) + 1
-            raw = raw_objects()
-            listed_all = [n async for n in r5._aiter(make_backend().list_files, '')]
-            listed = [n for n in listed_all if n.startswith('data/')]
-            refd, _ = refimpl.referenced_locations(ref, {n: raw[n] for n in listed_all if n in raw})
-            have = set(listed)
-            if have != refd:
-                bad('after clean the chunk objects differ from the referenced set',
-                    orphans=sorted(have - refd)[:3], missing=sorted(refd - have)[:3])
+            await do_clean('after a new snapshot')
         except Exception as e:
             import traceback
             bad(f'the repository is not usable after the interruption: {type(e).__name__}: {e}',
